@@ -43,6 +43,22 @@ Theorem C07_dispatch_all_answers ms : forall n cid n' outs,
        o_cmd a = m_cmd m /\ o_app a = m_app m /\ o_hbh a = m_hbh m /\ o_e2e a = m_e2e m)
   /\ (List.length (List.filter is_queue outs) <= List.length (List.filter m_req ms))%nat.
 Proof. exact (@NodeB.C07_dispatch_all_answers ms). Qed.
+
+(* C07: a request handed to an application whose handler does not raise is not also answered by the node *)
+Theorem C07_delivered_not_answered n cid m i m' :
+  handler_raises m = false ->
+  List.In (ODeliver i m') (snd (dispatch n cid m)) ->
+  forall cid' a, ~ List.In (OQueue cid' a) (snd (dispatch n cid m)).
+Proof. exact (@NodeB.C07_delivered_not_answered n cid m i m'). Qed.
+
+(* C07: when the node both hands a request to an application and answers it, the application's handler
+   raised and the answer is UNABLE_TO_COMPLY (5012) to that request, on its connection, after the delivery *)
+Theorem C07_delivered_answered_only_on_failure n cid m i m' cid' a :
+  List.In (ODeliver i m') (snd (dispatch n cid m)) ->
+  List.In (OQueue cid' a) (snd (dispatch n cid m)) ->
+  handler_raises m = true /\ m' = m /\ cid' = cid /\ a = answer_of m (Some RC_UNABLE) []
+  /\ snd (dispatch n cid m) = [ODeliver i m; OQueue cid (answer_of m (Some RC_UNABLE) [])].
+Proof. exact (@NodeB.C07_delivered_answered_only_on_failure n cid m i m' cid' a). Qed.
 End FromNodeB.
 
 Print Assumptions FromNodeB.send_message_out.
@@ -50,3 +66,5 @@ Print Assumptions FromNodeB.C07_dispatch_answers.
 Print Assumptions FromNodeB.C07_no_answer_to_answer.
 Print Assumptions FromNodeB.C07_answers_only_from.
 Print Assumptions FromNodeB.C07_dispatch_all_answers.
+Print Assumptions FromNodeB.C07_delivered_not_answered.
+Print Assumptions FromNodeB.C07_delivered_answered_only_on_failure.
